@@ -13,6 +13,7 @@ Stage T: see c13_trace.py (random rational parameters, recorded histories valida
 import math
 import random
 import warnings
+import zlib
 from concurrent.futures import ThreadPoolExecutor
 from fractions import Fraction
 
@@ -24,7 +25,7 @@ from ..core import pool_map
 MODULE = "chan/PathLoss.tla"
 ANT = "chan/AntGain.tla"
 MODELS = ["general", "3gpp1", "freespace", "metis", "hata"]
-DEVS = ["FcRejectKeepsValue", "NSetterKeepsC", "FcSetterKeepsC", "ClampArrayOnly", "HataRejectAssigns"]
+DEVS = ["FcRejectKeepsValue", "NSetterKeepsC", "FcSetterKeepsC", "ClampArrayOnly", "HataRejectAssigns", "ShadowAfterPolicy"]
 FID_FC = "C13-freespace-fc-reject-not-atomic"
 TOL = 1e-9
 
@@ -72,7 +73,8 @@ def alphabets(model, tier):
     kmin, kmax = (-6, 6) if th else (-4, 3)
     ks = list(range(kmin, kmax + 1))
     a = dict(InitArgs=[dict(n=rat(2), C=rat(0), fc=fcr(1, 0))], NVals=[], FcVals=[], HbsVals=[], HmsVals=[],
-             AreaVals=[], WallVals={0}, KMin=kmin, KMax=kmax)
+             AreaVals=[], WallVals={0}, KMin=kmin, KMax=kmax, ShadowVals={False, True},
+             SigmaVals=[rat(8)] if (model == "hata" and not th) else [rat(0), rat(8), rat(3)])
     if model == "general":
         a["InitArgs"] = [dict(n=rat(2), C=rat(100), fc=fcr(1, 0)), dict(n=rat(5, 2), C=rat(-10), fc=fcr(1, 0)),
                          dict(n=rat(94, 25), C=rat(1281, 10), fc=fcr(1, 0)), dict(n=rat(4), C=rat(35), fc=fcr(1, 0))]
@@ -90,7 +92,8 @@ def alphabets(model, tier):
         a["HmsVals"] = [rat(1), rat(10), rat(11)] + ([rat(3, 2), rat(1, 2)] if th else [])
         a["AreaVals"] = ["open", "suburban", "medium city", "large city", "rural"]
     # array queries: whole lattice, pairs, (thorough) every contiguous window
-    sets = [ks] + [[k, k + 1] for k in ks[:-1:2]] + [[ks[0]], [ks[-1], ks[0]]]
+    # (the non-negative decades are whole numbers: these sets are also issued in every integer dtype)
+    sets = [ks] + [[k, k + 1] for k in ks[:-1:2]] + [[ks[0]], [ks[-1], ks[0]], [0, 1, 2], list(range(0, kmax + 1))]
     if th:
         sets += [ks[i:j] for i in range(len(ks)) for j in range(i + 3, len(ks) + 1, 3)]
     arr = []
@@ -105,19 +108,20 @@ def alphabets(model, tier):
     return a
 
 
-def model_cfg(model, tier, dev=(), emit=False, props=True):
+def model_cfg(model, tier, dev=(), emit=False, props=True, sel=0):
     a = alphabets(model, tier)
     x1, x2 = CONSTS[model]
     enc = dict(x1=enclosure(x1), x2=enclosure(x2), kf=enclosure(KF))
-    defs = {k: tlc.tla(a[k]) for k in ("InitArgs", "NVals", "FcVals", "HbsVals", "HmsVals", "AreaVals", "WallVals", "ArrSets")}
+    defs = {k: tlc.tla(a[k]) for k in ("InitArgs", "NVals", "FcVals", "HbsVals", "HmsVals", "AreaVals", "WallVals", "ArrSets",
+                                        "ShadowVals", "SigmaVals")}
     defs["Enc"] = tlc.tla(enc)
     defs["KMin"] = str(a["KMin"])
     defs["KMax"] = str(a["KMax"])
     defs["Dev"] = tlc.tla({d: (d in dev) for d in DEVS})
-    cfg = tlc.cfg_text(constants={"Model": tlc.tla(model), "DoEmit": tlc.tla(bool(emit))},
+    cfg = tlc.cfg_text(constants={"Model": tlc.tla(model), "DoEmit": tlc.tla(bool(emit)), "EmitSel": str(sel)},
                        defs=defs,
                        invariants=["TypeOK", "ParamsValid", "CConsistent", "PLisDoc", "Monotone", "InUnit", "Policy",
-                                   "InverseId", "FriisClose"],
+                                   "InverseId", "FriisClose", "ShadowRange"],
                        properties=["RejectLaw"] if props else [])
     return cfg, defs
 
@@ -166,7 +170,7 @@ def construct(model, a):
 
 def project(model, o):
     """public parameters of the object, keyed like the emitted post-state"""
-    p = {"pol": o.handle_small_distances_bool}
+    p = {"pol": o.handle_small_distances_bool, "shadow": o.use_shadow_bool, "sigma": o.sigma_shadow}
     if model == "freespace":
         p["n"] = o.n
         p["fcv"] = o.fc
@@ -181,7 +185,7 @@ def compare_params(model, o, post):
     bad = []
     for k, v in project(model, o).items():
         want = post[k]
-        if k in ("pol", "area"):
+        if k in ("pol", "area", "shadow"):
             if v is not want and v != want:
                 bad.append(f"{k} is {v!r}, expected {want!r}")
         elif not (isinstance(v, (int, float)) and float(v) == fval(want)):
@@ -197,6 +201,10 @@ def apply_setter(model, o, e):
             return construct(model, arg), "ok", ""
         if op == "SetPol":
             o.handle_small_distances_bool = bool(arg)
+        elif op == "SetShadow":
+            o.use_shadow_bool = bool(arg)
+        elif op == "SetSigma":
+            o.sigma_shadow = fval(arg)
         elif op == "SetN":
             o.n = fval(arg)
         elif op == "SetFc":
@@ -240,12 +248,13 @@ def outcome_of(fn):
         return "raisevalue", str(ex)
 
 
-def pure_outcome(fn, *args):
+def pure_outcome(fn, *args, **kw):
     """Queries are pure (stuttering steps of the specification): call fn(*args) TWICE with the SAME argument objects.
     ndarray arguments (float64 distances / angles / losses, integer wall counts) must be bit-identical after each
     call, the result must not share memory with an argument, and the second result must equal the first.
     Returns outcome_of's (kind, value) of the first call, or ('impure', description)."""
     snaps = [a.copy() if isinstance(a, np.ndarray) else None for a in args]
+    seed = kw.get("seed", 20240913)
 
     def touched(when):
         for i, (a, b) in enumerate(zip(args, snaps)):
@@ -253,6 +262,7 @@ def pure_outcome(fn, *args):
                 return (f"query is not pure: argument {i} (caller's {b.dtype} array) was modified by the {when} call: "
                         f"before {b.ravel()[:4].tolist()}.., after {a.ravel()[:4].tolist()}..")
         return None
+    np.random.seed(seed)  # a shadowing draw is a function of the global numpy generator: same seed, same draw
     k1, x1 = outcome_of(lambda: fn(*args))
     t = touched("first")
     if t:
@@ -260,15 +270,66 @@ def pure_outcome(fn, *args):
     if k1 == "val" and isinstance(x1, np.ndarray) and any(b is not None and np.shares_memory(x1, a) for a, b in zip(args, snaps)):
         return "impure", "query is not pure: the returned array shares memory with the caller's argument"
     keep = x1.copy() if isinstance(x1, np.ndarray) else x1
+    np.random.seed(seed)
     k2, x2 = outcome_of(lambda: fn(*args))
     t = touched("second")
     if t:
         return "impure", t
+    if k1 == "val" and isinstance(x1, np.ndarray) and not np.array_equal(x1, keep, equal_nan=True):
+        return "impure", "an earlier result was overwritten by a later call (the returned array is re-used by the object)"
     if k1 != k2 or (k1 == "val" and not np.array_equal(np.asarray(keep), np.asarray(x2), equal_nan=True)):
         return "impure", (f"query is not repeatable: the same call with the same arguments returned "
                           f"{np.asarray(keep).ravel()[:4].tolist() if k1 == 'val' else k1}.. and then "
                           f"{np.asarray(x2).ravel()[:4].tolist() if k2 == 'val' else k2}..")
     return k1, keep
+
+
+INT_DTYPES = (np.int8, np.uint8, np.int16, np.int32, np.int64)
+
+
+def variants(a):
+    """(label, array, tolerance factor) for every other way a caller may hold the same values: every integer dtype
+    that can hold them (whole numbers only), float32, a strided (non-contiguous) view, a read-only array"""
+    out = []
+    if a.size and np.all(a == np.round(a)):
+        for dt in INT_DTYPES:
+            ii = np.iinfo(dt)
+            if a.min() >= ii.min and a.max() <= ii.max:
+                out.append((np.dtype(dt).name, a.astype(dt), 1.0))
+    if a.dtype.kind == "f":
+        out.append(("float32", a.astype(np.float32), 3e4))
+        big = np.zeros(2 * a.size + 1, dtype=a.dtype)
+        big[1::2] = a.ravel()
+        out.append(("strided view", big[1::2].reshape(a.shape), 1.0))
+        ro = a.copy()
+        ro.setflags(write=False)
+        out.append(("read-only", ro, 1.0))
+    return out
+
+
+def sweep(fn, args, kind0, x0, rel=False):
+    """AnyDtypeSameValue: repeat the array query fn(*args) with every variant of every ndarray argument (one argument
+    varied at a time); the outcome must be the one of the float64 call (already compared with the exact value)."""
+    for i, a in enumerate(args):
+        if not isinstance(a, np.ndarray):
+            continue
+        for label, v, f in variants(a):
+            aa = list(args)
+            aa[i] = v
+            k, x = pure_outcome(fn, *aa)
+            if k == "impure":
+                return f"argument {i} as {label}: {x}"
+            if k != kind0:
+                return f"argument {i} as {label}: {'raised ' + str(x) if k != 'val' else 'returned ' + repr(x)}, as float64: {kind0}"
+            if k == "val":
+                x = np.asarray(x, dtype=float)
+                w = np.asarray(x0, dtype=float)
+                tol = TOL * f * (np.abs(w) if rel else np.maximum(1.0, np.abs(w)))
+                if x.shape != w.shape or not np.all(np.abs(x - w) <= tol):
+                    j = int(np.argmax(np.abs(x - w) - tol)) if x.shape == w.shape and x.size else 0
+                    return (f"argument {i} as {label} ({v.ravel()[j]!r}): returned {x.ravel()[j] if x.size else x!r}, "
+                            f"as float64 ({a.ravel()[j]!r}): {w.ravel()[j] if w.size else w!r}")
+    return None
 
 
 def check_elem(x, exp, model, lin=False):
@@ -297,17 +358,22 @@ def run_query(model, o, q):
         exp = q["exp"]
         if kind == "impure":
             return x
-        if exp["t"] == "raise":
-            return None if kind == "raise" else f"array query returned {x!r}, expected RuntimeError (policy: raise)"
-        if kind != "val":
+        if exp["t"] == "raise" and kind != "raise":
+            return f"array query returned {x!r}, expected RuntimeError (policy: raise)"
+        if exp["t"] != "raise" and kind != "val":
             return f"array query raised ({x}), expected values"
-        if not isinstance(x, np.ndarray) or x.shape != d.shape:
+        if kind == "val" and (not isinstance(x, np.ndarray) or x.shape != d.shape):
             return f"array query returned {type(x).__name__} of wrong shape"
-        for i, el in enumerate(exp["v"]):
-            r = check_elem(x[i], el, model)
-            if r:
-                return f"element {i} (d=10^{q['ks'][i]}): {r}"
-        return None
+        if exp["t"] != "raise":
+            for i, el in enumerate(exp["v"]):
+                r = check_elem(x[i], el, model)
+                if r:
+                    return f"element {i} (d=10^{q['ks'][i]}): {r}"
+        r = sweep(lambda dd, ww: call_dB(model, o, dd, ww), [d, w], kind, x)
+        if r is None and kind == "val":
+            kl, xl = pure_outcome(lambda dd, ww: call_lin(model, o, dd, ww), d, w)
+            r = xl if kl == "impure" else sweep(lambda dd, ww: call_lin(model, o, dd, ww), [d, w], kl, xl, rel=True)
+        return ("array query, " + r) if r else None
     k, w = q["k"], q.get("w", 0)
     d = dist(k)
     exp = q["exp"]
@@ -409,6 +475,9 @@ def rel_predicates(model, o, walls=(0,), kmin=-4, kmax=3, per_decade=4, inverse=
                 if not close(y, x):
                     res["PolicyArrayScalar"] = f"array element {y!r} differs from the scalar query {x!r}"
                     break
+            r = sweep(lambda dd, ww: call_dB(model, o, dd, ww), [grid, wa], kind, xa)
+            if r:
+                res["QueryPure"] = r
             kl, la = pure_outcome(lambda dd, ww: call_lin(model, o, dd, ww), grid, wa)
             if kl == "impure":
                 res["QueryPure"] = la
@@ -429,10 +498,94 @@ def rel_predicates(model, o, walls=(0,), kmin=-4, kmax=3, per_decade=4, inverse=
     return res
 
 
+def shadow_predicates(model, o, walls=(0,), dets=None, slopes=None, nseeds=4, base_seed=1):
+    """Shadowing on, sigma > 0: the range law for EVERY draw, judged on seeded draws (np.random.seed) at distances
+    close to the model's minimum distance, scalar and array, under the object's policy (rel).
+    dets: {wall: {k: form}} exact deterministic losses from TLC (or None off the lattice), slopes: {wall: [p, q]}."""
+    res = {"InUnitEveryDraw": None, "PolicyEveryDraw": None, "NoiseBounded": None, "ShadowingIsOn": None}
+    sigma = float(o.sigma_shadow)
+    pol = o.handle_small_distances_bool is True
+    bound = 7.0 * sigma + 1e-9
+
+    def judge(kind, x, det, what, lin=None):
+        if kind == "impure":
+            res["InUnitEveryDraw"] = f"{what}: {x}"
+        elif kind == "raise":
+            if pol:
+                res["PolicyEveryDraw"] = f"{what}: raised although small distances are to be clamped to 0 dB ({x})"
+            elif det is not None and np.min(det) > bound:
+                res["NoiseBounded"] = f"{what}: raised although the deterministic loss {np.min(det)!r} dB is more than 7 sigma above 0"
+        elif kind != "val":
+            res["PolicyEveryDraw"] = f"{what}: {kind} {x}"
+        else:
+            xa = np.asarray(x, dtype=float)
+            if not np.all(xa >= 0.0):
+                res["InUnitEveryDraw"] = (f"{what}: shadowed loss {float(xa.min())!r} dB < 0 (linear value > 1) under policy "
+                                          f"{'clamp' if pol else 'raise'}")
+            elif det is not None and not np.all((np.abs(xa - det) <= bound) | ((xa == 0.0) & pol & (det <= bound))):
+                res["NoiseBounded"] = f"{what}: returned {xa.ravel()[:4].tolist()}.., deterministic {np.ravel(det)[:4].tolist()}.., sigma {sigma}"
+            if lin is not None:
+                kl, la = lin
+                if kl != "val" or not np.allclose(la, 10.0 ** (-xa / 10.0), rtol=1e-9, atol=0) or not np.all((np.asarray(la) > 0) & (np.asarray(la) <= 1)):
+                    res["InUnitEveryDraw"] = f"{what}: linear value {la!r} for the same draw is not 10^(-dB/10) in (0,1] (dB {xa.ravel()[:4].tolist()})"
+
+    for w in walls:
+        if dets:
+            tab = {int(k): ev(f, model) for k, f in dets[str(w)].items()}
+            sl = fval(slopes[str(w)])
+            pts = [(10.0 ** (k + i / 4.0), tab[k] + sl * i / 4.0) for k in sorted(tab) for i in range(4)]
+            near = [p for p in pts if -3.0 * sigma <= p[1] <= 4.0 * sigma][:14]
+        else:
+            pts = [(10.0 ** (k + i / 4.0), None) for k in range(-3, 3) for i in range(4)]
+            near = pts[::2]
+        grid = np.array([p[0] for p in pts])
+        gdet = np.array([p[1] for p in pts]) if dets else None
+        wa = np.full(grid.shape, w) if model == "metis" else None
+        far = []
+        for si in range(nseeds):
+            seed = base_seed + 101 * si
+            kind, xa = pure_outcome(lambda dd, ww: call_dB(model, o, dd, ww), grid, wa, seed=seed)
+            lin = pure_outcome(lambda dd, ww: call_lin(model, o, dd, ww), grid, wa, seed=seed) if kind == "val" else None
+            judge(kind, xa, gdet, f"array of {len(grid)} distances, walls {w}, np.random.seed({seed})", lin)
+            for j, (d, det) in enumerate(near):
+                sd = seed + 7 * j + 1
+                kind, x = pure_outcome(lambda: call_dB(model, o, float(d), w), seed=sd)
+                lin = pure_outcome(lambda: call_lin(model, o, float(d), w), seed=sd) if kind == "val" else None
+                judge(kind, x, det, f"PLdB({d!r}), walls {w}, np.random.seed({sd})", lin)
+            kind, x = pure_outcome(lambda: call_dB(model, o, float(pts[-1][0]), w), seed=seed)
+            far.append(x if kind == "val" else None)
+        if sigma > 0 and nseeds >= 3 and all(v is not None for v in far) and len({round(float(v), 9) for v in far}) == 1:
+            res["ShadowingIsOn"] = f"use_shadow_bool is True, sigma {sigma}: {nseeds} differently seeded draws all returned {far[0]!r}"
+    return res
+
+
+def behaviour(model, o):
+    """a small behavioural probe of the object (seeded, so also meaningful with shadowing on): what a later caller sees"""
+    out = []
+    w = 1 if model == "metis" else None
+    arr = np.array([0.002, 0.5, 3.0, 700.0])
+    for i, d in enumerate((0.002, 3.0, 700.0)):
+        np.random.seed(99 + i)
+        k, x = outcome_of(lambda: call_dB(model, o, d, w))
+        out.append((k, round(float(x), 9) if k == "val" else ""))
+    np.random.seed(5)
+    k, x = outcome_of(lambda: call_dB(model, o, arr, None if w is None else np.full(arr.shape, w)))
+    out.append((k, tuple(np.round(np.asarray(x, dtype=float), 9).tolist()) if k == "val" else ""))
+    return out
+
+
 def run_rel(model, o, q):
     walls = [int(w) for w in q["slope"]] if isinstance(q["slope"], dict) else [0]
     with warnings.catch_warnings():
         warnings.simplefilter("ignore")
+        if q.get("random"):
+            slopes = q["slope"] if isinstance(q["slope"], dict) else {"0": q["slope"][0]}
+            res = shadow_predicates(model, o, walls=walls, dets=q["dets"] if q.get("exact") else None, slopes=slopes,
+                                    nseeds=4, base_seed=1 + (zlib.crc32(graph.key(q["pre"]).encode()) % 1000))
+            for name in q["req"]:
+                if res.get(name):
+                    return f"(rel) {name}: {res[name]}"
+            return None
         res = rel_predicates(model, o, walls=walls, inverse="InverseId" in q["req"])
         for name in q["req"]:
             if res.get(name):
@@ -477,7 +630,13 @@ def run_edges(model, edges, qs, all_states=False):
     with warnings.catch_warnings():
         warnings.simplefilter("ignore")
         for i, e in enumerate(edges):
+            before = behaviour(model, o) if (o is not None and e["out"] == "raise") else None
             o, got, txt = apply_setter(model, o, e)
+            if before is not None and got == "raise" and behaviour(model, o) != before:
+                viol.append({"step": i, "op": e["op"], "arg": e["arg"],
+                             "what": f"RejectedChangesNothing: after the rejected {e['op']}({e['arg']}) the object answers differently: "
+                                     f"{before} -> {behaviour(model, o)}"})
+                break
             if got != e["out"]:
                 viol.append({"step": i, "op": e["op"], "arg": e["arg"],
                              "what": f"{e['op']}({e['arg']}) {'raised ' + txt if got == 'raise' else 'was accepted'}, expected {e['out']}"})
@@ -495,6 +654,7 @@ def run_edges(model, edges, qs, all_states=False):
                 break
             okc += 1
             if all_states or i == len(edges) - 1:
+                b0 = behaviour(model, o)
                 for q in qs.get(graph.key(e["post"]), ()):
                     r = run_query(model, o, q)
                     if r:
@@ -502,6 +662,10 @@ def run_edges(model, edges, qs, all_states=False):
                                      "what": f"in state {short(e['post'])} after {[x['op'] for x in edges[:i + 1]]}: {q['op']}: {r}"})
                         break
                     qc += 1
+                if not viol and behaviour(model, o) != b0:
+                    viol.append({"step": i, "op": "queries", "arg": None,
+                                 "what": f"QueryIsPure: in state {short(e['post'])} the object answers differently after the queries: "
+                                         f"{b0} -> {behaviour(model, o)}"})
                 if viol and "finding" not in viol[-1]:
                     break
     return okc, qc, viol
@@ -596,6 +760,24 @@ def run_antenna(ctx, r):
             ctx.violation(f"sector antenna ({s} sectors), float64 array of {len(th)} angles: {arr if kind != 'val' else arrneg}",
                           {"antenna": cases[0], "how": "array"})
             continue
+        wants = np.array([10.0 ** (fval(c["gain_dB"]) / 10.0) for c in cases])
+        sweeps = []
+        for dt in INT_DTYPES:  # whole degrees in every integer dtype that can hold them (a subset of the angles for 8 bits)
+            ii = np.iinfo(dt)
+            m = (th >= ii.min) & (th <= ii.max)
+            if m.any():
+                sweeps.append((np.dtype(dt).name, th[m].astype(dt), wants[m], 1.0))
+        sweeps += [(lab, v, wants, f) for lab, v, f in variants(th) if lab in ("float32", "strided view", "read-only")]
+        for lab, v, wv, f in sweeps:
+            kv, xv = pure_outcome(o.get_antenna_gain, v)
+            okv = kv == "val" and np.shape(xv) == wv.shape and np.all(np.abs(np.asarray(xv, dtype=float) - wv) <= TOL * f * np.abs(wv))
+            if okv:
+                ctx.ok(("ant", s, "array", lab))
+            else:
+                j = int(np.argmax(np.abs(np.asarray(xv, dtype=float) - wv) / wv)) if kv == "val" and np.shape(xv) == wv.shape else 0
+                ctx.violation(f"sector antenna ({s} sectors), angles as {lab} array: " + (str(xv) if kv != "val" else
+                              f"gain at {v[j]!r} deg is {np.asarray(xv).ravel()[j]!r}, expected {wv[j]!r} (AnyDtypeSameValue)"),
+                              {"antenna": cases[0], "how": lab, "sectors": s})
         for i, c in enumerate(cases):
             want = 10.0 ** (fval(c["gain_dB"]) / 10.0)
             for how, x in (("scalar", o.get_antenna_gain(float(c["theta"]))), ("int", o.get_antenna_gain(int(c["theta"]))), ("array", arr[i]), ("array of negated angles", arrneg[i])):
@@ -614,7 +796,14 @@ def run_antenna(ctx, r):
             ctx.violation(f"omni antenna gain {g} dBi, float64 array of angles: {ga}", {"antenna": c})
             continue
         xs = [o.get_antenna_gain(float(t)) for t in c["thetas"]] + list(np.asarray(ga).ravel())
-        if len(xs) == 2 * len(th) and all(close(x, want, rel=True) for x in xs):
+        for lab, v, f in variants(th):
+            kv, xv = pure_outcome(o.get_antenna_gain, v)
+            if kv != "val" or np.shape(xv) != v.shape:
+                xs.append(float("nan"))
+            else:
+                xs += list(np.asarray(xv, dtype=float).ravel())
+        if len(xs) >= 2 * len(th) and all(abs(float(x) - want) <= 3e-5 * want for x in xs) and \
+                all(close(x, want, rel=True) for x in xs[:2 * len(th)]):
             ctx.ok(("ant", "omni", str(g)))
         else:
             ctx.violation(f"omni antenna gain {g} dBi not constant 10^(g/10) = {want!r}: {xs[:6]}", {"antenna": c})
@@ -629,7 +818,7 @@ def ant_cfg(tier, dev=False, emit=True):
 
 
 # ------------------------------------------------------------------------------- the check
-REFUTE = {"FcRejectKeepsValue": "freespace", "NSetterKeepsC": "freespace", "FcSetterKeepsC": "freespace",
+REFUTE = {"ShadowAfterPolicy": "3gpp1", "FcRejectKeepsValue": "freespace", "NSetterKeepsC": "freespace", "FcSetterKeepsC": "freespace",
           "ClampArrayOnly": "general", "HataRejectAssigns": "hata"}
 
 
@@ -685,7 +874,7 @@ def run(ctx):
             a = e["op"] if e["kind"] == "set" else "Q" + e["op"]
             ctx.actions[a] = ctx.actions.get(a, 0) + 1
         plan[m] = explore(ctx, m, runs[m], depth, 4000 if th else 150, 10 if th else 8, 60000 if th else 6000)
-    ctx.require_actions(["Construct", "SetPol", "SetN", "SetFc", "SetHbs", "SetHms", "SetArea", "QPLdB", "QPL", "QPLdBArr",
+    ctx.require_actions(["Construct", "SetPol", "SetShadow", "SetSigma", "SetN", "SetFc", "SetHbs", "SetHms", "SetArea", "QPLdB", "QPL", "QPLdBArr",
                          "QWhichDistDB", "QWhichDist", "QFriis", "QRel"])
     n = 0
     jobs = [(m, p) for m in MODELS for p in plan[m][2]]
